@@ -193,4 +193,30 @@ theorem latestOf_eq (hs : List Header) (k : Nat) :
   rw [foldl_insert_latest]
   cases (hs.filter (fun h => h.num = k)).getLast? <;> simp [Map.empty]
 
+/-- `NoKindFlip` pins `firstComp` to the newest mention. -/
+theorem firstComp_of_noKindFlip (chain : List Sect) (n : Nat) (h : NoKindFlip chain n) :
+    (match firstComp chain n with
+      | some (a, b) => some (Ent.comp a b)
+      | none => newest chain n) = newest chain n := by
+  induction chain with
+  | nil => simp [firstComp, newest]
+  | cons s r ih =>
+    unfold NoKindFlip at h
+    cases hl : lastOf s n with
+    | none =>
+      rw [hl] at h
+      simp only [firstComp, newest, hl, lastComp_none_of_lastOf_none s n hl]
+      exact ih h
+    | some e =>
+      rw [hl] at h
+      cases e with
+      | comp x y =>
+        simp [firstComp, newest, hl, lastComp_of_lastOf_comp s n x y hl]
+      | free x y =>
+        simp only at h
+        rw [h]
+      | inuse x y =>
+        simp only at h
+        rw [h]
+
 end OxiVerif.C04
